@@ -3,5 +3,6 @@ CONSTANTS
   HistLen = 2
   Rich = FALSE
 INVARIANT InvReadOnly
+INVARIANT InvOuts
 INVARIANT InvDomain
 CHECK_DEADLOCK FALSE
